@@ -163,6 +163,23 @@ def run_programs(chk, progs, tag):
                        "how": "every print is one line of little-endian hex bytes; status = exit status"})
     for k in (0, len(progs) // 2, len(progs) - 1):
         chk.sample({"source": R().program({"fns": progs[k][0]["fns"]})[:1500], "observed": obs[k]})
+    import collections
+    hist = collections.Counter()
+
+    def walk(x):
+        if isinstance(x, dict):
+            if "s" in x and isinstance(x["s"], str):
+                hist["stmt:" + x["s"]] += 1
+            if "e" in x and isinstance(x["e"], str):
+                hist["expr:" + x["e"] + (":" + x["op"] if x["e"] in ("bin", "un") else "")] += 1
+            for v in x.values():
+                walk(v)
+        elif isinstance(x, list):
+            for v in x:
+                walk(v)
+    for r in recs:
+        walk(r["p"])
+    chk.cov["construct_counts"] = dict(sorted(hist.items()))
     chk.cov["evaluations"] = len(progs)
     chk.cov["distinct_nontrivial"] = len({json.dumps(r["p"], sort_keys=True) for r in recs})
     chk.cov["faulting_programs"] = len(faulting)
